@@ -125,7 +125,7 @@ def run(property_id, tier, seed):
     coverage = {
         "evaluations": total("runs"),
         "distinct_nontrivial": len(nontrivial),
-        "rule": "one evaluation = one seeded history (3-40 operations over <= 10 interdependent file slots) executed in its "
+        "rule": "one evaluation = one seeded history (3-40 operations over <= 11 interdependent file slots) executed in its "
                 "own forked process against the real CompilerSession and a real scratch directory; distinct = hash of the "
                 "abstracted history (operation kind, slot, content variant / query); non-trivial = at least one edit or "
                 "disk fault strictly between two queries",
